@@ -600,6 +600,7 @@ def integrate_packaging(chk):
 
 def main():
     chk = Check(PID)
+    chk.default_replay = lambda: _replay_driver('dop853', True, 0)
     import hiten.algorithms.integrators.rk as rk
     thorough = chk.tier == 'thorough'
     chk.encode(rk._hermite_refine_in_step, rk._rk45_refine_in_step, rk._dop853_refine_in_step, rk._dop853_refine_in_step_ham,
